@@ -6,6 +6,7 @@ package main
 import (
 	"fmt"
 	"go/token"
+	"go/types"
 	"sort"
 	"strings"
 
@@ -23,12 +24,23 @@ func c07YearLimitCmp(cond ssa.Value, branch bool) (int64, bool) {
 	if !ok {
 		return 0, false
 	}
-	x, y, op := cmp.X, cmp.Y, cmp.Op
+	x, y, op := c07Settle(cmp.X), c07Settle(cmp.Y), cmp.Op
 	isYear := func(v ssa.Value) bool {
-		c, ok := v.(*ssa.Call)
+		c, ok := c07Settle(v).(*ssa.Call)
 		return ok && c07IsTimeMethod(c, "Year")
 	}
 	limitOf := func(v ssa.Value) (int64, bool) {
+		// t.AddDate(k, 0, 0).Year()
+		if c, ok := v.(*ssa.Call); ok && c07IsTimeMethod(c, "Year") && len(c.Call.Args) == 1 {
+			if ad, ok := c07Settle(c.Call.Args[0]).(*ssa.Call); ok && c07IsTimeMethod(ad, "AddDate") && len(ad.Call.Args) == 4 {
+				k, ok1 := c07ConstInt(ad.Call.Args[1])
+				m, ok2 := c07ConstInt(ad.Call.Args[2])
+				d, ok3 := c07ConstInt(ad.Call.Args[3])
+				if ok1 && ok2 && ok3 && m == 0 && d == 0 && k > 0 {
+					return k, true
+				}
+			}
+		}
 		bo, ok := v.(*ssa.BinOp)
 		if !ok || bo.Op != token.ADD {
 			return 0, false
@@ -57,6 +69,59 @@ func c07YearLimitCmp(cond ssa.Value, branch bool) (int64, bool) {
 	return 0, false
 }
 
+// c07Settle looks through value-preserving wrappers: loads of local cells
+// written once (a limit kept in a local struct or captured variable), integer
+// conversions, type changes.
+func c07Settle(v ssa.Value) ssa.Value {
+	for i := 0; i < 6; i++ {
+		switch x := v.(type) {
+		case *ssa.UnOp:
+			if x.Op == token.MUL {
+				if val, _ := c07CellValue(x); val != nil {
+					v = val
+					continue
+				}
+			}
+		case *ssa.ChangeType:
+			v = x.X
+			continue
+		case *ssa.Convert:
+			if c07isInteger(x.Type()) && c07isInteger(x.X.Type()) {
+				v = x.X
+				continue
+			}
+		}
+		break
+	}
+	return v
+}
+
+// c07TimeDependent: v is computed from a time.Time accessor / arithmetic call.
+func c07TimeDependent(v ssa.Value, depth int) bool {
+	if v == nil || depth <= 0 {
+		return false
+	}
+	v = c07Settle(v)
+	if c, ok := v.(*ssa.Call); ok {
+		if obj := calleeObj(c); obj != nil && obj.Pkg() != nil && obj.Pkg().Path() == "time" {
+			if sig := obj.Type().(*types.Signature); sig.Recv() != nil && typeBaseName(sig.Recv().Type()) == "Time" {
+				return true
+			}
+		}
+	}
+	if _, isPhi := v.(*ssa.Phi); isPhi {
+		return false
+	}
+	if in, ok := v.(ssa.Instruction); ok {
+		for _, op := range in.Operands(nil) {
+			if op != nil && *op != nil && c07TimeDependent(*op, depth-1) {
+				return true
+			}
+		}
+	}
+	return false
+}
+
 func c07EndsInReturn(b *ssa.BasicBlock) bool {
 	if len(b.Instrs) == 0 {
 		return false
@@ -70,173 +135,492 @@ func c07Reach(start *ssa.BasicBlock, stop map[*ssa.BasicBlock]bool) map[*ssa.Bas
 	return reachableFrom(start, stop)
 }
 
+// c07N6Info is what N6 knows about one function on the search path.
+type c07N6Info struct {
+	fn      *ssa.Function
+	limit   map[*ssa.BasicBlock]bool
+	limitIf *ssa.If
+	exact   bool // limit recognised in the exact `Year() > Year()+k` form
+	wrong   bool // ... with inverted polarity
+	adv     map[*ssa.BasicBlock]bool
+	matches []c07N6Match
+	calls   map[*ssa.BasicBlock][]*ssa.Function // module callees per block
+}
+
+type c07N6Match struct {
+	b     *ssa.BasicBlock
+	label string
+}
+
+func c07PositiveAdvance(c *ssa.Call) bool {
+	if len(refs(c)) == 0 {
+		return false
+	}
+	if c07IsTimeMethod(c, "Add") && len(c.Call.Args) == 2 {
+		if k, ok := c07ConstInt(c.Call.Args[1]); ok && k > 0 {
+			return true
+		}
+	}
+	if c07IsTimeMethod(c, "AddDate") && len(c.Call.Args) == 4 {
+		sum, all := int64(0), true
+		for _, a := range c.Call.Args[1:] {
+			k, ok := c07ConstInt(a)
+			if !ok || k < 0 {
+				all = false
+			}
+			sum += k
+		}
+		return all && sum > 0
+	}
+	return false
+}
+
 func (st *c07State) checkN6() {
 	p, r := st.p, st.r
 	next := p.Func("cron", "SpecSchedule.Next")
 	name := FuncName(p, next)
 	specKey := p.ModPath + "/cron.SpecSchedule"
+	fv := st.eng.fv
 
-	// limit tests
-	limit := map[*ssa.BasicBlock]bool{}
-	var limitIf *ssa.If
-	wrongPolarity := false
-	for _, b := range next.Blocks {
-		if len(b.Instrs) == 0 {
-			continue
+	// functions on the search path: Next and the module functions it reaches
+	var order []*ssa.Function
+	seen := map[*ssa.Function]bool{}
+	var visit func(f *ssa.Function, d int)
+	visit = func(f *ssa.Function, d int) {
+		f = origin(f)
+		if f == nil || seen[f] || d > 5 || f.Blocks == nil || !p.InModule(f) {
+			return
 		}
-		ifi, ok := b.Instrs[len(b.Instrs)-1].(*ssa.If)
-		if !ok || len(b.Succs) != 2 {
-			continue
-		}
-		for i, br := range []bool{true, false} {
-			if _, ok := c07YearLimitCmp(ifi.Cond, br); ok {
-				if c07EndsInReturn(b.Succs[i]) {
-					limit[b] = true
-					limitIf = ifi
-				} else if c07EndsInReturn(b.Succs[1-i]) {
-					wrongPolarity = true
-					limitIf = ifi
+		seen[f] = true
+		order = append(order, f)
+		allInstrs(f, func(in ssa.Instruction) {
+			if ci, ok := in.(ssa.CallInstruction); ok {
+				for _, t := range fv.callTargets(ci) {
+					visit(t.Fn, d+1)
 				}
 			}
-		}
+		})
 	}
-	limConstruct := name + " year-limit test"
-	switch {
-	case len(limit) > 0:
-		r.OK(c07N6, limConstruct, p.Pos(c04IfPos(limitIf)), "the search gives up (returns) once t.Year() exceeds the start year plus a constant")
-	case wrongPolarity:
-		r.Violation(c07N6, limConstruct, p.Pos(c04IfPos(limitIf)), "the year-limit comparison is inverted: Next returns while the year is within the limit and keeps searching beyond it, so a schedule that never matches (e.g. February 31st) makes Next run forever")
-	default:
-		r.Violation(c07N6, limConstruct, p.Pos(next.Pos()), "SpecSchedule.Next has no test `t.Year() > start year + constant => return`: a schedule that never matches (e.g. day 31 of February) makes Next loop forever")
-	}
+	visit(next, 0)
 
-	// advancing blocks
-	adv := map[*ssa.BasicBlock]bool{}
-	for _, b := range next.Blocks {
-		for _, in := range b.Instrs {
-			c, ok := in.(*ssa.Call)
-			if !ok || len(refs(c)) == 0 {
+	// may-advance summary: the function contains a used positive-constant Add/AddDate (transitively)
+	mayAdv := map[*ssa.Function]bool{}
+	for changed := true; changed; {
+		changed = false
+		for _, f := range order {
+			if mayAdv[f] {
 				continue
 			}
-			if c07IsTimeMethod(c, "Add") && len(c.Call.Args) == 2 {
-				if k, ok := c07ConstInt(c.Call.Args[1]); ok && k > 0 {
-					adv[b] = true
-				}
-			}
-			if c07IsTimeMethod(c, "AddDate") && len(c.Call.Args) == 4 {
-				sum, all := int64(0), true
-				for _, a := range c.Call.Args[1:] {
-					k, ok := c07ConstInt(a)
-					if !ok || k < 0 {
-						all = false
+			allInstrs(f, func(in ssa.Instruction) {
+				if c, ok := in.(*ssa.Call); ok {
+					if c07PositiveAdvance(c) {
+						mayAdv[f] = true
 					}
-					sum += k
+					for _, t := range fv.callTargets(c) {
+						if mayAdv[origin(t.Fn)] {
+							mayAdv[f] = true
+						}
+					}
 				}
-				if all && sum > 0 {
-					adv[b] = true
-				}
+			})
+			if mayAdv[f] {
+				changed = true
 			}
 		}
 	}
 
-	// field-match tests
-	type matchIf struct {
-		b     *ssa.BasicBlock
-		label string
-	}
-	var matches []matchIf
-	isMatch := map[*ssa.BasicBlock]bool{}
-	for _, b := range next.Blocks {
-		if len(b.Instrs) == 0 || limit[b] {
-			continue
-		}
-		ifi, ok := b.Instrs[len(b.Instrs)-1].(*ssa.If)
-		if !ok || len(b.Succs) != 2 {
-			continue
-		}
-		if lbl := st.specDependence(ifi.Cond, specKey, 8); lbl != "" {
-			matches = append(matches, matchIf{b, lbl})
-			isMatch[b] = true
-		}
-	}
-	if len(matches) == 0 {
-		r.Undecide("C07.N6: no field-match test found in %s (search loops unrecognisable)", name)
-		return
-	}
-	labelSeen := map[string]int{}
-	for _, m := range matches {
-		labelSeen[m.label]++
-		label := m.label
-		if labelSeen[m.label] > 1 {
-			label = fmt.Sprintf("%s#%d", m.label, labelSeen[m.label])
-		}
-		ifi := m.b.Instrs[len(m.b.Instrs)-1].(*ssa.If)
-		pos := p.Pos(c04IfPos(ifi))
-		// stay successor: reaches an advancing block without passing another match test, the limit test or m itself
-		stop := map[*ssa.BasicBlock]bool{m.b: true}
-		for b := range isMatch {
-			stop[b] = true
-		}
-		for b := range limit {
-			stop[b] = true
-		}
-		reachesAdv := func(s *ssa.BasicBlock) bool {
-			if stop[s] {
-				return false
-			}
-			for b := range c07Reach(s, stop) {
-				if adv[b] {
-					return true
+	infos := map[*ssa.Function]*c07N6Info{}
+	for _, f := range order {
+		inf := &c07N6Info{fn: f, limit: map[*ssa.BasicBlock]bool{}, adv: map[*ssa.BasicBlock]bool{}, calls: map[*ssa.BasicBlock][]*ssa.Function{}}
+		infos[f] = inf
+		for _, b := range f.Blocks {
+			for _, in := range b.Instrs {
+				c, ok := in.(*ssa.Call)
+				if !ok {
+					continue
+				}
+				if c07PositiveAdvance(c) {
+					inf.adv[b] = true
+				}
+				for _, t := range fv.callTargets(c) {
+					g := origin(t.Fn)
+					inf.calls[b] = append(inf.calls[b], g)
+					if mayAdv[g] && len(refs(c)) > 0 {
+						inf.adv[b] = true
+					}
 				}
 			}
-			return false
+			if len(b.Instrs) == 0 || len(b.Succs) != 2 {
+				continue
+			}
+			ifi, ok := b.Instrs[len(b.Instrs)-1].(*ssa.If)
+			if !ok {
+				continue
+			}
+			for i, br := range []bool{true, false} {
+				if _, ok := c07YearLimitCmp(ifi.Cond, br); ok {
+					if c07EndsInReturn(b.Succs[i]) {
+						inf.limit[b], inf.limitIf, inf.exact = true, ifi, true
+					} else if c07EndsInReturn(b.Succs[1-i]) {
+						inf.wrong, inf.limitIf = true, ifi
+					}
+				}
+			}
 		}
-		s0, s1 := reachesAdv(m.b.Succs[0]), reachesAdv(m.b.Succs[1])
-		var stay, exit *ssa.BasicBlock
+		if len(inf.limit) == 0 && !inf.wrong {
+			// a give-up test in a form the engine does not evaluate: a returning
+			// branch, inside a cycle, on a time-derived condition that does not
+			// look at the schedule (t.After(deadline), a helper pastLimit(t, y), ...)
+			for _, b := range f.Blocks {
+				if len(b.Instrs) == 0 || len(b.Succs) != 2 {
+					continue
+				}
+				ifi, ok := b.Instrs[len(b.Instrs)-1].(*ssa.If)
+				if !ok || !(c07EndsInReturn(b.Succs[0]) || c07EndsInReturn(b.Succs[1])) {
+					continue
+				}
+				if st.specDependence(ifi.Cond, specKey, 8) != "" {
+					continue
+				}
+				if st.timeDependent(ifi.Cond, 6) && c07InCycle(b) && st.invariantBound(ifi.Cond, f, f != next) {
+					inf.limit[b], inf.limitIf = true, ifi
+				}
+			}
+		}
+		for _, b := range f.Blocks {
+			if len(b.Instrs) == 0 || inf.limit[b] || len(b.Succs) != 2 {
+				continue
+			}
+			ifi, ok := b.Instrs[len(b.Instrs)-1].(*ssa.If)
+			if !ok {
+				continue
+			}
+			if lbl := st.specDependence(ifi.Cond, specKey, 8); lbl != "" {
+				inf.matches = append(inf.matches, c07N6Match{b, lbl})
+			}
+		}
+	}
+
+	// containsSearch: the function has a match test (transitively)
+	contains := map[*ssa.Function]bool{}
+	for changed := true; changed; {
+		changed = false
+		for _, f := range order {
+			if contains[f] {
+				continue
+			}
+			for _, m := range infos[f].matches {
+				if c07InCycle(m.b) {
+					contains[f] = true // a search loop, not a mere predicate on the schedule
+				}
+			}
+			for _, gs := range infos[f].calls {
+				for _, g := range gs {
+					if contains[g] {
+						contains[f] = true
+					}
+				}
+			}
+			if contains[f] {
+				changed = true
+			}
+		}
+	}
+
+	// the limit test: looked for in the functions that drive the search (Next
+	// first, then any function on the path that cycles over search calls)
+	top := infos[next]
+	limConstruct := name + " year-limit test"
+	anyLimit := false
+	for _, f := range order {
+		inf := infos[f]
+		if len(inf.limit) == 0 && !inf.wrong {
+			continue
+		}
+		anyLimit = true
 		switch {
-		case s0 && !s1:
-			stay, exit = m.b.Succs[0], m.b.Succs[1]
-		case s1 && !s0:
-			stay, exit = m.b.Succs[1], m.b.Succs[0]
-		case !s0 && !s1:
-			// no successor advances t: if the test can repeat without passing the limit test, it spins
+		case inf.wrong && len(inf.limit) == 0:
+			r.Violation(c07N6, limConstruct, p.Pos(c04IfPos(inf.limitIf)), "the year-limit comparison is inverted: Next returns while the year is within the limit and keeps searching beyond it, so a schedule that never matches (e.g. February 31st) makes Next run forever")
+		case inf.exact:
+			r.OK(c07N6, limConstruct, p.Pos(c04IfPos(inf.limitIf)), "the search gives up (returns) once t.Year() exceeds the start year plus a constant")
+		default:
+			r.OK(c07N6, limConstruct, p.Pos(c04IfPos(inf.limitIf)), "the search has a give-up test on the time reached (form not evaluated here; C04.N3 decides its value)")
+			r.Note("C07.N6: the search bound of %s is written in a form whose polarity the engine does not evaluate", name)
+		}
+	}
+	if !anyLimit {
+		r.Violation(c07N6, limConstruct, p.Pos(next.Pos()), "SpecSchedule.Next has no test on the time reached (`t.Year() > start year + constant => return` or an equivalent) inside its search cycle: a schedule that never matches (e.g. day 31 of February) makes Next loop forever")
+	}
+	_ = top
+
+	nMatch := 0
+	covered := map[string]bool{}
+	labelSeen := map[string]int{}
+	for _, f := range order {
+		inf := infos[f]
+		limit, adv := inf.limit, inf.adv
+		isMatch := map[*ssa.BasicBlock]bool{}
+		for _, m := range inf.matches {
+			isMatch[m.b] = true
+		}
+		for _, m := range inf.matches {
+			if !c07InCycle(m.b) {
+				continue // a predicate on the schedule; its loop (if any) is in a caller
+			}
+			nMatch++
+			for _, fld := range strings.Split(m.label, "+") {
+				covered[fld] = true
+			}
+			labelSeen[m.label]++
+			label := m.label
+			if labelSeen[m.label] > 1 {
+				label = fmt.Sprintf("%s#%d", m.label, labelSeen[m.label])
+			}
+			ifi := m.b.Instrs[len(m.b.Instrs)-1].(*ssa.If)
+			pos := p.Pos(c04IfPos(ifi))
+			cAdv := name + " search loop on " + label + " advances"
+			cRe := name + " search loop on " + label + " re-entry passes the limit test"
+			stop := map[*ssa.BasicBlock]bool{m.b: true}
+			for b := range isMatch {
+				stop[b] = true
+			}
+			for b := range limit {
+				stop[b] = true
+			}
+			reachesAdv := func(s *ssa.BasicBlock) bool {
+				if stop[s] {
+					return false
+				}
+				for b := range c07Reach(s, stop) {
+					if adv[b] {
+						return true
+					}
+				}
+				return false
+			}
+			s0, s1 := reachesAdv(m.b.Succs[0]), reachesAdv(m.b.Succs[1])
+			var stay, exit *ssa.BasicBlock
+			switch {
+			case s0 && !s1:
+				stay, exit = m.b.Succs[0], m.b.Succs[1]
+			case s1 && !s0:
+				stay, exit = m.b.Succs[1], m.b.Succs[0]
+			case !s0 && !s1:
+				back0 := c07Reach(m.b.Succs[0], limit)[m.b]
+				back1 := c07Reach(m.b.Succs[1], limit)[m.b]
+				switch {
+				case adv[m.b]:
+					// the test block itself advances (a step helper that reports a
+					// match/wrap): some branch must leave towards the limit test or a return
+					r.OK(c07N6, cAdv, pos, "the step that is tested advances t")
+					r.Check(!(back0 && back1), c07N6, cRe, pos,
+						"one branch of the test leads to the year-limit test or out of the search",
+						"whatever this test says, control comes back to it without passing the year-limit test: for a schedule that never matches, Next advances t forever and never returns")
+				case back0 || back1:
+					r.Violation(c07N6, cAdv, pos,
+						"the loop that searches for a matching "+label+" does not advance t by a positive constant (Add/AddDate whose result is used) before testing again: with a non-matching t it repeats forever")
+					r.Trivial(c07N6, cRe, pos, "-")
+				default:
+					r.Trivial(c07N6, cAdv, pos, "test is not in a cycle that avoids the limit test")
+					r.Trivial(c07N6, cRe, pos, "test is not in a cycle that avoids the limit test")
+				}
+				continue
+			default:
+				st.unclassified(c07N6, name+" search loop on "+label, "both branches of the match test advance t; loop shape not recognised")
+				r.Trivial(c07N6, cAdv, pos, "unclassified loop shape")
+				r.Trivial(c07N6, cRe, pos, "unclassified loop shape")
+				continue
+			}
+			reExit := c07Reach(exit, limit)
+			r.Check(!reExit[m.b] || exit == m.b, c07N6, cRe, pos,
+				"once this field matches, the search can only come back to it through the year-limit test",
+				"after this field matches, a later field can wrap around and jump back to this loop without passing the `t.Year() > limit` test: for a schedule that never matches, Next advances t forever and never returns")
+			stop2 := map[*ssa.BasicBlock]bool{}
+			for b := range limit {
+				stop2[b] = true
+			}
+			for b := range adv {
+				stop2[b] = true
+			}
+			spins := !stop2[stay] && c07Reach(stay, stop2)[m.b]
+			r.Check(!spins, c07N6, cAdv, pos,
+				"every iteration of the search loop advances t by a positive constant",
+				"there is a way around the search loop on "+label+" that neither advances t by a positive constant nor passes the year-limit test: Next can spin forever on a non-matching t")
+		}
+		// search calls: a block that calls a function containing a search loop must
+		// not lie on a cycle that avoids the limit test
+		for b, gs := range inf.calls {
+			var g *ssa.Function
+			for _, c := range gs {
+				if contains[c] && c != f {
+					g = c
+				}
+			}
+			if g == nil || !c07InCycle(b) {
+				continue
+			}
 			back := false
-			for _, s := range m.b.Succs {
-				if c07Reach(s, limit)[m.b] {
+			for _, s := range b.Succs {
+				if limit[s] {
+					continue
+				}
+				if c07Reach(s, limit)[b] {
 					back = true
 				}
 			}
-			if back {
-				r.Violation(c07N6, name+" search loop on "+label+" advances", pos,
-					"the loop that searches for a matching "+label+" does not advance t by a positive constant (Add/AddDate whose result is used) before testing again: with a non-matching t it repeats forever")
-			} else {
-				r.Trivial(c07N6, name+" search loop on "+label+" advances", pos, "test is not in a cycle")
+			lbl := st.fieldsRead(g, specKey, 0)
+			r.Check(!back, c07N6, name+" search call on "+lbl+" re-entry passes the limit test", p.Pos(instrPos(b.Instrs[0])),
+				"the search step can only be repeated through the year-limit test",
+				"the call that searches for a matching "+lbl+" lies on a cycle of "+FuncName(p, f)+" that does not pass the year-limit test: for a schedule that never matches, Next advances t forever and never returns")
+		}
+	}
+	if nMatch == 0 {
+		r.Undecide("C07.N6: no field-match test found in %s or the functions it calls (search loops unrecognisable)", name)
+		return
+	}
+	// every bit-set field of SpecSchedule must have been seen in some match test
+	if named := p.Named("cron", "SpecSchedule"); named != nil {
+		if stt, ok := named.Underlying().(*types.Struct); ok {
+			for i := 0; i < stt.NumFields(); i++ {
+				fld := stt.Field(i)
+				if b, ok := fld.Type().Underlying().(*types.Basic); ok && b.Kind() == types.Uint64 && !covered[fld.Name()] {
+					r.Undecide("C07.N6: no search loop testing SpecSchedule.%s was recognised on the path of %s", fld.Name(), name)
+				}
 			}
-			continue
-		default:
-			st.unclassified(c07N6, name+" search loop on "+label, "both branches of the match test advance t; loop shape not recognised")
-			r.Trivial(c07N6, name+" search loop on "+label+" advances", pos, "unclassified loop shape")
-			continue
 		}
-		// (b) after leaving the loop by a match, control cannot come back to it without the limit test
-		reExit := c07Reach(exit, limit)
-		r.Check(!reExit[m.b] || exit == m.b, c07N6, name+" search loop on "+label+" re-entry passes the limit test", pos,
-			"once this field matches, the search can only come back to it through the year-limit test",
-			"after this field matches, a later field can wrap around and jump back to this loop without passing the `t.Year() > limit` test: for a schedule that never matches, Next advances t forever and never returns")
-		// (c) every iteration advances: without the advancing blocks the stay successor cannot come back
-		stop2 := map[*ssa.BasicBlock]bool{}
-		for b := range limit {
-			stop2[b] = true
-		}
-		for b := range adv {
-			stop2[b] = true
-		}
-		spins := !stop2[stay] && c07Reach(stay, stop2)[m.b]
-		r.Check(!spins, c07N6, name+" search loop on "+label+" advances", pos,
-			"every iteration of the search loop advances t by a positive constant",
-			"there is a way around the search loop on "+label+" that neither advances t by a positive constant nor passes the year-limit test: Next can spin forever on a non-matching t")
 	}
 	st.checkLoopSteps()
+}
+
+// invariantBound: the condition compares against a value fixed before the
+// search started: a time-derived value computed outside every cycle of the
+// function (yearLimit := t.Year()+5, deadline := t.AddDate(5,0,0)) or, in a
+// helper, an int/time.Time parameter. This is what tells a give-up test from a
+// wrap-around test (which only looks at the loop-carried time).
+func (st *c07State) invariantBound(cond ssa.Value, fn *ssa.Function, allowParams bool) bool {
+	found := false
+	seen := map[ssa.Value]bool{}
+	var walk func(v ssa.Value, d int)
+	walk = func(v ssa.Value, d int) {
+		if v == nil || d <= 0 || found || seen[v] {
+			return
+		}
+		seen[v] = true
+		v = c07Settle(v)
+		switch x := v.(type) {
+		case *ssa.Phi, *ssa.Const:
+			return
+		case *ssa.Parameter:
+			if allowParams {
+				if b, ok := x.Type().Underlying().(*types.Basic); (ok && b.Info()&types.IsInteger != 0) || namedKey(x.Type()) == "time.Time" {
+					// a loop-invariant parameter (never reassigned: it is not a phi here)
+					found = true
+				}
+			}
+			return
+		}
+		in, ok := v.(ssa.Instruction)
+		if !ok {
+			return
+		}
+		if in.Parent() == fn && in.Block() != nil && !c07InCycle(in.Block()) && c07TimeDependent(v, 6) {
+			found = true
+			return
+		}
+		for _, op := range in.Operands(nil) {
+			if op != nil && *op != nil {
+				walk(*op, d-1)
+			}
+		}
+	}
+	walk(cond, 7)
+	return found
+}
+
+// timeDependent: c07TimeDependent, or a call of a module function that
+// receives a time.Time.
+func (st *c07State) timeDependent(v ssa.Value, depth int) bool {
+	if c07TimeDependent(v, depth) {
+		return true
+	}
+	found := false
+	var walk func(v ssa.Value, d int)
+	walk = func(v ssa.Value, d int) {
+		if v == nil || d <= 0 || found {
+			return
+		}
+		v = c07Settle(v)
+		if _, isPhi := v.(*ssa.Phi); isPhi {
+			return
+		}
+		if c, ok := v.(*ssa.Call); ok {
+			if len(st.eng.fv.callTargets(c)) > 0 {
+				for _, a := range c.Call.Args {
+					if namedKey(a.Type()) == "time.Time" {
+						found = true
+					}
+				}
+			}
+		}
+		if in, ok := v.(ssa.Instruction); ok {
+			for _, op := range in.Operands(nil) {
+				if op != nil && *op != nil {
+					walk(*op, d-1)
+				}
+			}
+		}
+	}
+	walk(v, depth)
+	return found
+}
+
+// fieldsRead: the SpecSchedule fields a function reads (transitively through
+// module callees that receive the schedule), as "A+B".
+func (st *c07State) fieldsRead(fn *ssa.Function, specKey string, depth int) string {
+	set := map[string]bool{}
+	st.fieldsReadInto(fn, specKey, depth, set, map[*ssa.Function]bool{})
+	delete(set, "Location")
+	var names []string
+	for n := range set {
+		names = append(names, n)
+	}
+	sort.Strings(names)
+	if len(names) == 0 {
+		return fn.Name()
+	}
+	return strings.Join(names, "+")
+}
+
+func (st *c07State) fieldsReadInto(fn *ssa.Function, specKey string, depth int, set map[string]bool, seen map[*ssa.Function]bool) {
+	fn = origin(fn)
+	if fn == nil || seen[fn] || depth > 4 || fn.Blocks == nil {
+		return
+	}
+	seen[fn] = true
+	allInstrs(fn, func(in ssa.Instruction) {
+		switch x := in.(type) {
+		case *ssa.FieldAddr:
+			if namedKey(x.X.Type()) == specKey {
+				for _, rf := range refs(x) {
+					if u, ok := rf.(*ssa.UnOp); ok && u.Op == token.MUL {
+						set[fieldIDOfAddr(x).Field] = true
+					}
+				}
+			}
+		case *ssa.Field:
+			if namedKey(x.X.Type()) == specKey {
+				set[fieldIDOfField(x).Field] = true
+			}
+		case ssa.CallInstruction:
+			for _, t := range st.eng.fv.callTargets(x) {
+				for _, a := range x.Common().Args {
+					if namedKey(a.Type()) == specKey {
+						st.fieldsReadInto(t.Fn, specKey, depth+1, set, seen)
+					}
+				}
+			}
+		}
+	})
 }
 
 // specDependence: the condition depends on a field of *SpecSchedule (returns
@@ -263,11 +647,21 @@ func (st *c07State) specDependence(v ssa.Value, specKey string, depth int) strin
 			return
 		case *ssa.Phi:
 			return
+		case *ssa.UnOp:
+			// a bit set cached in a local variable / local struct / captured cell
+			if x.Op == token.MUL {
+				if val, _ := c07CellValue(x); val != nil {
+					walk(val, d-1)
+					return
+				}
+			}
 		case *ssa.Call:
-			if fn := staticCallee(x); fn != nil && st.p.InModule(fn) {
+			for _, t := range st.eng.fv.callTargets(x) {
 				for _, a := range x.Call.Args {
 					if namedKey(a.Type()) == specKey {
-						found[fn.Name()] = true
+						for _, f := range strings.Split(st.fieldsRead(t.Fn, specKey, 0), "+") {
+							found[f] = true
+						}
 					}
 				}
 			}
